@@ -35,6 +35,7 @@ def check(run):
         run.count("ops:%d-%d" % (len(s[2]) // 5 * 5, len(s[2]) // 5 * 5 + 4))
         run.count("compression:" + r["comp"])
         E.record_failures(run, s, E.judge_files(s, r), seen)
+    E.scale_check(run, seen, "exp")
     # the reading loops an application may write: one block object re-used for every block of the file, either by reading into it
     # again (CdnsBlockRead::read on a used object) or by assigning each returned block to it - same records as with fresh objects
     lines, want = [], []
